@@ -665,7 +665,7 @@ def tcp_lock_timeout_case(ctx, rng: random.Random) -> str | None:
 
     def poller():
         while not stop_poll.is_set():
-            for q in (client.is_closed, client.get_local_address, client.get_remote_address, client.backend if hasattr(client, "backend") else client.is_closed):
+            for q in (client.is_closed, client.get_local_address, client.get_remote_address, client.fileno, lambda: client.socket.getsockname(), lambda: client.socket.fileno(), lambda: client.socket.family):
                 if stop_poll.is_set():
                     break
                 done = threading.Event()
@@ -686,7 +686,8 @@ def tcp_lock_timeout_case(ctx, rng: random.Random) -> str | None:
     tp = threading.Thread(target=poller, daemon=True)
     tp.start()
     ctx.count("state_queries_during_blocked_send")
-    time.sleep(0.1)
+    # half of the runs keep the sender blocked for more than a second (bounded waits inside the library would expire meanwhile)
+    time.sleep(1.3 if rng.random() < 0.5 else 0.1)
     start_reading.set()
     for t in (ta, tc):
         t.join(60)
